@@ -197,6 +197,28 @@ def run(ctx):
                     ok, smp, err = False, False, repr(ex)[:120]
                 if not (ok and smp):
                     ctx.violation({'kind': 'to-alias', 'alias': al.lower()}, {'start': [u0, vu0], 'error': err}, case=None)
+    # the same spectrum with its wavelengths held in single precision or as integers (whole nanometres: exactly representable): every
+    # conversion gives what the float64 twin gives - the arithmetic of a conversion is not done in the storage type of the grid
+    wn = np.arange(400, 900, 7)
+    vn = 1.0 + (np.arange(wn.size) % 5) * 0.25
+    for vu0 in [None] + FU:
+        for wdt in (np.float32, np.int32, np.int64, np.uint16):
+            for path in [(t,) for t in targets if not (vu0 is None and t in FU)] + [('m', 'nm'), ('um', 'wlam' if vu0 else 'angstrom', 'nm')]:
+                a = r.Spectrum(wn.astype(wdt), vn.copy(), waveunit='nm', valueunit=vu0)
+                b = r.Spectrum(wn.astype(float), vn.copy(), waveunit='nm', valueunit=vu0)
+                npaths += 1
+                ctx.case(('to-narrow-grid', np.dtype(wdt).name, vu0, path))
+                try:
+                    a.to(*path)
+                    b.to(*path)
+                    ok = a.waveunit == b.waveunit and a.valueunit == b.valueunit and np.allclose(np.asarray(a.wave, dtype=float), b.wave, rtol=1e-12, atol=0) \
+                        and np.allclose(np.asarray(a.value, dtype=float), b.value, rtol=1e-12, atol=0)
+                    err = None
+                except Exception as ex:
+                    ok, err = False, repr(ex)[:160]
+                if not ok:
+                    ctx.violation({'kind': 'to-depends-on-the-storage-type-of-the-grid', 'wave_dtype': np.dtype(wdt).name, 'density': vu0 is not None},
+                                  {'path': path, 'error': err}, case=None)
     # ---- Planck ----------------------------------------------------------------------------------------------------------------------
     for T in (300.0, 2000.0, 5778.0, 12000.0):
         w_m = np.array([3e-7, 5e-7, 1e-6, 4e-6, 1e-5])
@@ -229,6 +251,18 @@ def run(ctx):
                         ok = False
                     if not ok:
                         ctx.violation({'kind': 'planck-integer-wavelengths', 'waveunit': u, 'valueunit': vu, 'form': form}, {'T': T, 'wavelengths': wi}, case=None)
+        # temperatures given as a single precision array (a scalar wavelength, several bodies): the same law in double precision
+        for u, w1 in (('nm', 500.0), ('m', 5e-7), ('um', 0.5)):
+            for vu in FU:
+                Ts = np.array([T, 2 * T, 10 * T])
+                ref_t = np.array([float(r.planck_radiance(w1, float(t_), waveunit=u, valueunit=vu)) for t_ in Ts])
+                try:
+                    got_t = np.asarray(r.planck_radiance(w1, Ts.astype(np.float32), waveunit=u, valueunit=vu), dtype=float)
+                    ok = got_t.shape == ref_t.shape and np.allclose(got_t, ref_t, rtol=1e-12, atol=0)
+                except Exception:
+                    ok = False
+                if not ok:
+                    ctx.violation({'kind': 'planck-single-precision-temperatures', 'waveunit': u, 'valueunit': vu}, {'T': Ts.tolist(), 'wavelength': w1}, case=None)
         for u, al in (('um', 'micron'), ('nm', 'nanometer'), ('m', 'meter')):
             w_u = w_m * 10.0 ** (-sp.EXP[u])
             for vu in FU:
